@@ -10,6 +10,12 @@ CLAIMS = {
          "Structural necessary conditions on every CFG path and build configuration: reset re-initialises every generator field like new() (3 reasoned exceptions with side conditions); the two refusals and the finalisation mismatch have exactly the stated guards; refusals do not modify the generator; all finalisers share one implementation. Not a proof that a correct hint leaves the hash unchanged.", "§3.3-3.5, §4 C12"),
  "C13": ("exact branch-guard extraction normalised to intervals, with rustc-evaluated constants, on MIR",
          "Decides the borders only: 192 GiB accepted / +1 rejected (hint and finalisation), warning border 4097, the size<=192 shortcut and the shape of the initial block-size formula. Block-size choice and last-piece hash as values are not decided.", "§3.3, §4 C13"),
+ "C18": ("error-flow discipline and def-use data-flow rules over the resolved MIR of the reader front ends",
+         "Every fallible call in hash_stream_common/hash_stream/hash_file is consumed by `?`/return/unwrap with the Break arm returning that residual and no finaliser or Ok reachable after it; fed bytes are exactly buffer[0..len] of this iteration's read; the loop exits only on len==0; hash_file declares the metadata length of the same file before reading; finalisation's mismatch guard is exact. Decided for every path; assumes Read::read's contract.", "§3.12, §4 C18"),
+ "C19": ("exhaustive table check on rustc-evaluated constants + shape of the reading function + fold/forward delegation on MIR",
+         "FNV half decided: all 4096 table entries equal the 6-bit FNV-1 step, initial value, the step function reads exactly that table with ch%64 (or the arithmetic variant), only that function writes the state; slice/iterator/+= forms of both primitives are folds of the single-byte form over the whole input. The rolling hash's window-only dependence is NOT decided.", "§3.1, §3.13, §4 C19"),
+ "C20": ("exhaustive table checks on rustc-evaluated constants; predicates as difference constraints; exact guards; formula-tree match on MIR",
+         "Tables (31 size strings, de Bruijn pair) exhaustively; is_log_valid/is_valid shapes; the four relation predicates and compare_sizes as difference constraints equal the definition; capping border dispatch; cap and raw-score formula trees equal the documented formulas and are reached only in their asserted domain. Value-range facts (1..=100) are not decided.", "§3.1, §3.3, §3.8, §4 C20"),
 }
 NA = {
  "C01": "byte-exact agreement with the ssdeep CTPH algorithm is numeric over all inputs (piece boundaries, FNV folding, fork/elimination); no necessary condition is visible in code shape beyond those checked under C11/C12/C13/C14/C19; static analysis cannot decide it",
